@@ -24,7 +24,7 @@ from typing import Any, Dict, List, Optional, Tuple
 
 from hypothesis import strategies as st
 
-from ..core import CaseResult, Family, HarnessError, Violation
+from ..core import CaseResult, Family, HarnessError, Violation, pick
 from ..engines import fsbox
 from ..engines.fsbox import SENTINEL
 from ..engines.memwire import Pair, Stuck, asyncssh
@@ -834,14 +834,14 @@ WHOLE = [b'', b'/', b'.', b'..', b'//', b'/..', b'/../..', b'../..',
 
 
 def paths():
-    comp = st.one_of(st.sampled_from(NAMES), st.sampled_from(NAMES),
-                     st.sampled_from(ODD))
-    lead = st.sampled_from([b'', b'', b'', b'', b'', b'', b'/', b'/', b'/',
+    comp = st.one_of(pick(NAMES), pick(NAMES),
+                     pick(ODD))
+    lead = pick([b'', b'', b'', b'', b'', b'', b'/', b'/', b'/',
                             b'/', b'/', b'/', b'/', b'/', b'/', b'/../',
                             b'/../', b'../', b'../', b'./', b'///', b'/./',
                             b'//', b'', b'/', b'/', b'/', b'/'])
-    sep = st.sampled_from([b'/', b'/', b'/', b'/', b'//', b'/./'])
-    trail = st.sampled_from([b'', b'', b'', b'/', b'/.'])
+    sep = pick([b'/', b'/', b'/', b'/', b'//', b'/./'])
+    trail = pick([b'', b'', b'', b'/', b'/.'])
 
     def build(args):
         l, comps, s, t = args
@@ -849,7 +849,7 @@ def paths():
 
     gen = st.tuples(lead, st.lists(comp, min_size=1, max_size=5), sep,
                     trail).map(build)
-    return st.one_of(gen, gen, gen, st.sampled_from(WHOLE))
+    return st.one_of(gen, gen, gen, pick(WHOLE))
 
 
 def link_targets():
@@ -857,7 +857,7 @@ def link_targets():
     about"""
 
     ups = st.integers(0, 4).map(lambda n: b'../' * n)
-    tail = st.sampled_from([b'outside/canary.txt', b'outside', b'canary.txt',
+    tail = pick([b'outside/canary.txt', b'outside', b'canary.txt',
                             b'x', b'f', b'a', b'a/f', b'', b'..',
                             b'l2/outside/sub', b'root/f', b'm/../../x',
                             b'l', b'm'])
@@ -868,16 +868,16 @@ def link_targets():
 def random_op():
     p = paths()
     return st.one_of(
-        st.tuples(st.just('open'), p, st.sampled_from(OPEN_MODES)),
-        st.tuples(st.sampled_from(['stat', 'lstat', 'ls', 'remove', 'mkdir',
+        st.tuples(st.just('open'), p, pick(OPEN_MODES)),
+        st.tuples(pick(['stat', 'lstat', 'ls', 'remove', 'mkdir',
                                    'rmdir', 'readlink', 'statvfs', 'rmtree',
                                    'makedirs', 'glob']), p),
-        st.tuples(st.sampled_from(['setstat', 'lsetstat']), p,
-                  st.sampled_from(['perm', 'size', 'time'])),
+        st.tuples(pick(['setstat', 'lsetstat']), p,
+                  pick(['perm', 'size', 'time'])),
         st.tuples(st.just('realpath'), p, st.integers(1, 3),
                   st.lists(p, max_size=2)),
-        st.tuples(st.just('rename'), p, p, st.sampled_from([0, 0, 1])),
-        st.tuples(st.sampled_from(['prename', 'link', 'copy']), p, p),
+        st.tuples(st.just('rename'), p, p, pick([0, 0, 1])),
+        st.tuples(pick(['prename', 'link', 'copy']), p, p),
         st.tuples(st.just('symlink'), link_targets(), p),
     ).map(list)
 
@@ -891,21 +891,21 @@ def rearrange_scenario(draw):
     """symlink with a climbing relative target created deep, then moved (or
     its surroundings changed) and used: the F7 shape and its relatives"""
 
-    where = draw(st.sampled_from([b'/a', b'/a/b', b'/d', b'/n', b'/a/n']))
+    where = draw(pick([b'/a', b'/a/b', b'/d', b'/n', b'/a/n']))
     ops: List[List[Any]] = []
 
     if where.endswith(b'n'):
         ops.append(['mkdir', where])
 
     depth = where.count(b'/')
-    ups = draw(st.integers(1, depth + draw(st.sampled_from([0, 0, 0, 1, 2]))))
-    tail = draw(st.sampled_from([b'outside/canary.txt', b'outside', b'x',
+    ups = draw(st.integers(1, depth + draw(pick([0, 0, 0, 1, 2]))))
+    tail = draw(pick([b'outside/canary.txt', b'outside', b'x',
                                  b'canary.txt', b'cwd/a', b'x/y']))
-    link = where + b'/' + draw(st.sampled_from([b'l', b'm']))
+    link = where + b'/' + draw(pick([b'l', b'm']))
     ops.append(['symlink', b'../' * ups + tail, link])
-    how = draw(st.sampled_from(['rename', 'prename', 'link', 'rename-dir',
+    how = draw(pick(['rename', 'prename', 'link', 'rename-dir',
                                 'none', 'via-link']))
-    newloc = draw(st.sampled_from([b'/l', b'/m', b'/d/l', b'/a/m']))
+    newloc = draw(pick([b'/l', b'/m', b'/d/l', b'/a/m']))
 
     if how == 'rename':
         ops.append(['rename', link, newloc, 0])
@@ -914,7 +914,7 @@ def rearrange_scenario(draw):
     elif how == 'link':
         ops.append(['link', link, newloc])
     elif how == 'rename-dir':
-        newdir = draw(st.sampled_from([b'/n2', b'/d/n2']))
+        newdir = draw(pick([b'/n2', b'/d/n2']))
         ops.append(['rename', where, newdir, 0])
         newloc = newdir + link[len(where):]
     elif how == 'via-link':
@@ -925,8 +925,8 @@ def rearrange_scenario(draw):
     else:
         newloc = link
 
-    use = draw(st.sampled_from(USE_OPS))
-    sub = draw(st.sampled_from([b'', b'', b'/sub', b'/canary.txt', b'/new']))
+    use = draw(pick(USE_OPS))
+    sub = draw(pick([b'', b'', b'/sub', b'/canary.txt', b'/new']))
     target = newloc + sub
 
     if use in ('stat', 'lstat', 'ls', 'mkdir', 'remove', 'statvfs',
@@ -935,7 +935,7 @@ def rearrange_scenario(draw):
     elif use == 'open-r':
         ops.append(['open', target, 'r'])
     elif use == 'open-w':
-        ops.append(['open', target, draw(st.sampled_from(['w', 'c', 'a']))])
+        ops.append(['open', target, draw(pick(['w', 'c', 'a']))])
     elif use == 'realpath':
         ops.append(['realpath', target, 1, []])
     elif use == 'setstat':
@@ -954,7 +954,7 @@ def chroot_strategy(tier: str):
     @st.composite
     def build(draw):
         ops: List[List[Any]] = []
-        shape = draw(st.sampled_from(['random', 'random', 'scenario',
+        shape = draw(pick(['random', 'random', 'scenario',
                                       'mixed']))
 
         if shape in ('random', 'mixed'):
@@ -966,7 +966,7 @@ def chroot_strategy(tier: str):
             ops.extend(draw(rearrange_scenario()))
             ops.extend(draw(st.lists(random_op(), max_size=2)))
 
-        if not draw(st.sampled_from([True] + [False] * 7)):
+        if not draw(pick([True] + [False] * 7)):
             # paths with exactly two leading slashes leave the root at once
             # (known finding): keep them to one case in eight so that the
             # other cases run to their end
@@ -979,8 +979,8 @@ def chroot_strategy(tier: str):
 
             ops = [[fix(a) for a in op] for op in ops]
 
-        return {'v': draw(st.sampled_from([3, 3, 4, 5, 6])),
-                'driver': draw(st.sampled_from(['raw', 'raw', 'api'])),
+        return {'v': draw(pick([3, 3, 4, 5, 6])),
+                'driver': draw(pick(['raw', 'raw', 'api'])),
                 'ops': ops}
 
     return build()
@@ -1149,8 +1149,8 @@ SCP_NAMES = [b'a', b'b', b'f', b'new', b'd', b'..', b'..', b'.', b'../evil',
 
 
 def scp_records(max_len: int, names):
-    name = st.sampled_from(names)
-    mode = st.sampled_from([0o644, 0o755, 0o600, 0o7777, 0])
+    name = pick(names)
+    mode = pick([0o644, 0o755, 0o600, 0o7777, 0])
     size = st.integers(0, 12)
 
     crec = st.tuples(st.just('C'), mode, size, name, st.integers(0, 12)) \
@@ -1161,11 +1161,11 @@ def scp_records(max_len: int, names):
         crec, crec, crec, drec, drec, st.just(['E']),
         st.tuples(st.just('T'), st.integers(0, 2 ** 31),
                   st.integers(0, 2 ** 31)).map(list),
-        st.tuples(st.just('raw'), st.sampled_from(
+        st.tuples(st.just('raw'), pick(
             [b'C0644 3', b'C0644 x y', b'D', b'X0644 0 a', b'C0644 0 a b',
              b'C 0644 0 ../x', b'D0755 0  ..', b'C0644 -1 a', b'',
              b'C0644 0 ' + b'../' * 3 + b'evil'])).map(list),
-        st.tuples(st.just('err'), st.sampled_from([1, 2]),
+        st.tuples(st.just('err'), pick([1, 2]),
                   st.just(b'boom')).map(list))
     return st.lists(rec, min_size=1, max_size=max_len)
 
@@ -1175,11 +1175,11 @@ def scp_chroot_strategy(tier: str):
 
     @st.composite
     def build(draw):
-        d = draw(st.sampled_from(['upload', 'upload', 'download']))
-        flags = draw(st.sampled_from([b'-r ', b'-r ', b'', b'-r -p ',
+        d = draw(pick(['upload', 'upload', 'download']))
+        flags = draw(pick([b'-r ', b'-r ', b'', b'-r -p ',
                                       b'-d -r ', b'-p ']))
         # scp paths go through shlex on the server: keep them shell-plain
-        path = draw(st.sampled_from(
+        path = draw(pick(
             [b'.', b'/', b'a', b'/a', b'd', b'new', b'..', b'../..',
              b'../outside', b'/../outside', b'a/../../outside',
              b'../outside/canary.txt', b'../../canary.txt', b'//', b'a//b/',
@@ -1448,6 +1448,12 @@ def run_sftp_get(case) -> CaseResult:
         try:
             if case['mode'] == 'get':
                 h.run(c.get(b'src', dest, **kw))
+            elif case['mode'] == 'mget-multi':
+                # several patterns over the same remote directory in one
+                # call (glob results of one pattern must not poison the
+                # next), then a second call on the same client
+                h.run(c.mget([b'src/zz*', b'src/*', b'src/?*'], dest, **kw))
+                h.run(c.mget([b'src/*'], dest, **kw))
             else:
                 h.run(c.mget(b'src/*', dest, **kw))
 
@@ -1475,7 +1481,8 @@ def run_sftp_get(case) -> CaseResult:
             box.close()
 
 
-GET_NAMES = [b'a', b'b', b'evil', b'l', b'l', b'x', b'../evil',
+GET_NAMES = [b'a', b'b', b'evil', b'l', b'l', b'x', b'..', b'.', b'..',
+             b'../evil',
              b'../../evil', b'../../../evil', b'../outside/canary.txt',
              b'../../outside/evil', b'../../outside/sub/new',
              SENTINEL + b'/evil', b'$OUT/evil', b'$OUT/canary.txt',
@@ -1489,15 +1496,15 @@ GET_TARGETS = [b'../../outside', b'../outside', b'$OUT', b'$OUT/sub',
 
 
 def get_tree(depth: int, width: int):
-    name = st.sampled_from(GET_NAMES)
+    name = pick(GET_NAMES)
 
     def node(children):
         f = st.tuples(name, st.integers(0, 40)).map(
             lambda t: {'n': t[0], 't': 'f', 'size': t[1]})
         d = st.tuples(name, children).map(
             lambda t: {'n': t[0], 't': 'd', 'kids': t[1]})
-        ln = st.tuples(name, st.sampled_from(GET_TARGETS),
-                       st.sampled_from(['', 'f', 'd', 'd']),
+        ln = st.tuples(name, pick(GET_TARGETS),
+                       pick(['', 'f', 'd', 'd']),
                        st.integers(0, 20), children).map(
             lambda t: {'n': t[0], 't': 'l', 'tgt': t[1], 'as': t[2],
                        'size': t[3], 'kids': t[4] if t[2] == 'd' else []})
@@ -1515,10 +1522,10 @@ def get_tree(depth: int, width: int):
 def dup_scenario(draw):
     """symlink with an outward target, then a same-named directory"""
 
-    name = draw(st.sampled_from([b'l', b'a', b'x']))
-    tgt = draw(st.sampled_from(GET_TARGETS))
+    name = draw(pick([b'l', b'a', b'x']))
+    tgt = draw(pick(GET_TARGETS))
     kids = draw(st.lists(st.tuples(
-        st.sampled_from([b'evil', b'canary.txt', b'sub', b'a']),
+        pick([b'evil', b'canary.txt', b'sub', b'a']),
         st.integers(0, 9)).map(lambda t: {'n': t[0], 't': 'f',
                                           'size': t[1]}),
         min_size=1, max_size=2))
@@ -1534,20 +1541,21 @@ def sftp_get_strategy(tier: str):
 
     @st.composite
     def build(draw):
-        shape = draw(st.sampled_from(['tree', 'tree', 'tree', 'dup']))
+        shape = draw(pick(['tree', 'tree', 'tree', 'dup']))
 
         if shape == 'dup':
             tree = draw(dup_scenario())
         else:
             tree = draw(get_tree(depth, 3).filter(bool))
 
-        return {'v': draw(st.sampled_from([3, 3, 4, 5, 6])),
-                'mode': draw(st.sampled_from(['get', 'get', 'mget'])),
-                'dest': draw(st.sampled_from(['abs', 'abs', 'rel', 'new',
+        return {'v': draw(pick([3, 3, 4, 5, 6])),
+                'mode': draw(pick(['get', 'get', 'mget',
+                                             'mget-multi'])),
+                'dest': draw(pick(['abs', 'abs', 'rel', 'new',
                                               'slash'])),
                 'preserve': draw(st.booleans()),
-                'follow': draw(st.sampled_from([False, False, True])),
-                'errh': draw(st.sampled_from([True, True, False])),
+                'follow': draw(pick([False, False, True])),
+                'errh': draw(pick([True, True, False])),
                 'tree': tree}
 
     return build()
@@ -1671,11 +1679,11 @@ def scp_sink_strategy(tier: str):
 
     @st.composite
     def build(draw):
-        return {'dest': draw(st.sampled_from(['abs', 'abs', 'rel', 'new',
+        return {'dest': draw(pick(['abs', 'abs', 'rel', 'new',
                                               'slash'])),
-                'recurse': draw(st.sampled_from([True, True, True, False])),
+                'recurse': draw(pick([True, True, True, False])),
                 'preserve': draw(st.booleans()),
-                'errh': draw(st.sampled_from([True, True, False])),
+                'errh': draw(pick([True, True, False])),
                 'records': draw(scp_records(n, SCP_NAMES))}
 
     return build()
@@ -1697,7 +1705,7 @@ FAMILIES = [
                              'path:dotdot', 'rec:C', 'rec:D', 'rec:E']}),
     Family('sftp-get', run_sftp_get, strategy=sftp_get_strategy,
            budget={'quick': 700, 'thorough': 10000},
-           required={'all': ['get', 'mget', 'name:dotdot', 'name:abs',
+           required={'all': ['get', 'mget', 'mget-multi', 'name:dotdot', 'name:abs',
                              'name:empty-comp', 'name:abs-into-box',
                              'dup-name', 'symlink-then-dir',
                              'outward-symlink', 'nested', 'preserve',
